@@ -233,7 +233,7 @@ def run(ctx):
 
     quick = ctx.tier == "quick"
     n_script = 800 if quick else 6000
-    n_real = 60 if quick else 600
+    n_real = 120 if quick else 900
     max_atoms = 120 if quick else 300
     n_front = 64 if quick else 256
 
@@ -283,6 +283,7 @@ def run(ctx):
     nontrivial = 0
     direct = []
     f0_bad = []
+    asym = []
     for c in cases:
         r = res.get(c["id"])
         if r is None:
@@ -325,6 +326,8 @@ def run(ctx):
         seen_hash.add(h)
         if r.get("f0_violations"):
             f0_bad.append(c["id"])
+        if r.get("d_symmetric") is False or r.get("d_finite") is False:
+            asym.append(c["id"])
         for kind_, detail in direct_failures(c, r):
             direct.append((c["id"], kind_, detail))
     n_eval = sum(1 for c in cases if c["id"] in res)
@@ -376,7 +379,8 @@ def run(ctx):
     # (2) correspondence / contract / proof broke but the property's predicate held on every input tried
     corr = [(cid, "agree_run (model vs implementation stage snapshots)") for cid in corr_fail] + \
            [(cid, "front_end (ValueError iff zero vector on a periodic axis)") for cid in fe_fail] + \
-           [(cid, "F0 (finder contract) violated on a logged call") for cid in f0_bad]
+           [(cid, "F0 (finder contract) violated on a logged call") for cid in f0_bad] + \
+           [(cid, "assumption: radii-corrected distance matrix symmetric and finite") for cid in asym]
     ctx.coverage["correspondence_failures"] = [{"case": cid, "relation": rel} for cid, rel in corr[:20]]
     if coq_errors:
         broken.append({"stage": "correspond", "error": coq_errors[0]})
